@@ -328,8 +328,13 @@ def run_property(prop, tier, repo, mod, seed=0, write_evidence=True, quiet=False
         model = Model(repo)
         ctx = Ctx(prop, repo, tier, model)
         mod.run(ctx)
+        _known = {k["key"] for k in load_known() if k["property"] == prop and k.get("status") == "known"}
+        _unlisted = [f for f in ctx.findings if f.key not in _known]
         for rule, minimum in getattr(mod, "FLOORS", {}).items():
-            # a floor guards against a rule passing vacuously; a rule that reports findings is not silent
+            # a floor guards against a rule passing vacuously.  When the run reports an unlisted violation
+            # anyway, lower instance counts are a consequence of the violating code, not a silent pass.
+            if _unlisted:
+                continue
             if any(f.rule == rule or f.rule.startswith(rule + ".") for f in ctx.findings):
                 continue
             ctx.floor(rule, minimum)
